@@ -173,6 +173,45 @@ def run(chk):
     chk.rule("R09.1", "Predictor::new hands the model's own type n-gram model and type window to TypeScorer::new (shared with C09)")
     with chk.only(rules={"R09.1"}, keys=lambda k: "type-scorer-args" in k or k.endswith(":scorers")):
         c09.r091_predictor(chk, facts.world(cfgname(F)))
+    per_config(chk)
+
+
+SINGLE_OFF = [C.NO_CHARWISE, C.NO_CACHE, C.NO_FIX]
+
+
+def per_config(chk):
+    """code that is compiled only when a feature is OFF is invisible in the all-features build: the structural scoring / tagging /
+    state rules of C01, C06 and C18 are run on every single-feature-off configuration.  Only obligations that HOLD on the
+    all-features configuration are recorded: a rule instance that holds there and fails with one feature switched off means
+    the two builds compute different results (a defect common to all configurations is not this property's)."""
+    from . import c01, c06, c18, c14
+    from .. import report
+
+    def run_all(ck):
+        c01.run(ck)
+        c06.run(ck)
+        c18.run(ck)
+        c14.from_variable_identity(ck, C.world_for(ck))
+    ref = report.Check("C13", chk.tier)
+    ref.config = cfgname(F)
+    run_all(ref)
+    strip = lambda k: k.split("@[")[0]
+    bad_ref = {strip(o["key"]) for o in ref.obs if not o["ok"]}
+    have_ref = {strip(o["key"]) for o in ref.obs}
+    chk.rule("R13.4", "C01/C06/C18 structural rules per single-feature-off configuration, recorded where they hold with all features on")
+    saved = chk.config
+    n = 0
+    for c in SINGLE_OFF:
+        chk.config = c
+        before = len(chk.obs)
+        with chk.only(keys=lambda k: k not in bad_ref and "floor(" not in k):
+            run_all(chk)
+        n += len(chk.obs) - before
+        chk.configs.add(c)
+    chk.config = saved
+    chk.rule_texts.update({k: v for k, v in ref.rule_texts.items() if k not in chk.rule_texts})
+    chk.functions |= ref.functions
+    chk.floor("R13.4", "per-configuration obligations", n, 500)
 
 
 def twins(chk):
@@ -220,7 +259,10 @@ def twins(chk):
             if cw and cw[0] in ("ival", "eq"):
                 lo = cw[1] if cw[0] == "ival" else cw[1][1]
                 hi = cw[2] if cw[0] == "ival" else cw[1][1]
-                cls = (lo, hi)
+                # the window size is a u8: intervals are clipped to the type's range (a range pattern splits at 0, a `<=` test does not)
+                if hi is not None and hi < 0:
+                    continue
+                cls = (max(lo or 0, 0), hi)
             calls = [e[2].split("::")[-2] for e in o.trace if e[0] == "call" and (e[2] or "").endswith("::new") and "type_scorer" in (e[2] or "")]
             tagempty = [e[5] for e in o.trace if e[0] == "call" and (e[2] or "").endswith("Vec::is_empty") and len(e) > 5]
             # with tag-prediction the second emptiness test is `tag_ngram_model.is_empty()`: compare the tag-less case
